@@ -28,7 +28,10 @@ def run(res, tier, seed, replay):
     else:
         recs = ss.corpus_recs("C15", dump=True)
         r2, hangs = ss.run_streams([("amo", nmax, "sync", "debug", count), ("amo", nmax, "sync", "release", count // 2),
-                                    ("amo", min(nmax, 20), "yield", "debug", count // 4)], seed + 53, dump=True)
+                                    ("amo", min(nmax, 20), "yield", "debug", count // 4),
+                                    # candidates revealed while some are already decided (restarts, constrains, hints)
+                                    ("conflict", 127, "sync", "debug", count), ("conflict", 127, "gated:lifo", "debug", count // 4)],
+                                   seed + 53, dump=True)
         recs += r2
     ref = ss.oracle_ref(recs)
     tc.annotate(recs)
@@ -41,6 +44,18 @@ def run(res, tier, seed, replay):
         sizes[n] = sizes.get(n, 0) + 1
         res.count([key, r["stream"]], n >= 3)
         res.sample({"n": n, "problem": r["case"]["p"], "verdict": k, "reference_solvable": want}, limit=3)
+        if want is None:
+            continue
+        if r["case"]["class"] != "amo":
+            # general universes: only the registration invariant / trace tie and the verdict are judged here
+            t = r.get("trace", {})
+            ok = t.get("db") and t.get("run") and (t.get("strict") if k == "sat" else t.get("unsat"))
+            if (k == "unsat" and want) or (k == "sat" and not want):
+                res.violation(key, f"verdict {k} but reference says solvable={want} in {r['stream']}", ss.replay_obj(r))
+            elif k in ("sat", "unsat") and "trace" in r and not ok:
+                res.tie_break(f"trace checker rejects a log in {r['stream']} (every candidate revealed by a requirement must be registered "
+                              f"in its package's at-most-one tracker; clauses must be facts): {t}", tc.trace_replay(r))
+            continue
         if k == "unsat" and want:
             res.violation(key, f"a single candidate of a package with {n} candidates cannot be selected (solver says Unsolvable) in {r['stream']}",
                           ss.replay_obj(r))
@@ -64,6 +79,16 @@ def run(res, tier, seed, replay):
             ok = t.get("db") and t.get("run") and (t.get("strict") if k == "sat" else t.get("unsat"))
             if k in ("sat", "unsat") and not ok:
                 res.tie_break(f"trace checker rejects the log of a C15 case in {r['stream']}: {t}", tc.trace_replay(r))
+    if res.tie_breaks and not res.violations and not replay:
+        vlib.log("trace tie broken; searching for a selection with two solvables of one package (o_valid on a large burst)")
+        burst, _ = ss.run_streams([("conflict", 127, "sync", "release", 40000), ("conflict", 119, "sync", "release", 20000),
+                                   ("dense", 127, "sync", "release", 20000)], seed + 3001)
+        ss.oracle_sat(burst)
+        for r in burst:
+            if r.get("valid") is False:
+                res.violation(ss.case_key(r["case"]), f"solution {r['obs']['outcome']['sat']} is invalid (found by the search burst) in {r['stream']}",
+                              ss.replay_obj(r))
+        res.extra["search_burst_cases"] = len(burst)
     if len(examples) > (400 if tier == "quick" else 4000):
         examples = examples[:: max(1, len(examples) // (400 if tier == "quick" else 4000))]
     n_ok, failed = coqreplay.run_examples("C15", HEADER, examples)
